@@ -168,6 +168,48 @@ def opts_of(d):
     return d.get("options") or {}
 
 
+def _terms(v, acc):
+    k = v.get("k")
+    if k in ("sym", "rrt"):
+        acc.append(v["term"])
+    elif k == "list":
+        for x in v["xs"]:
+            _terms(x, acc)
+    elif k == "arr":
+        for r in v["rows"]:
+            for x in r:
+                _terms(x, acc)
+
+
+def params_cancel(spec, missing):
+    """True iff no value of the specification's program depends on the parameters `missing`: they occur only in sub-expressions
+    that cancel identically (e.g. {w}**2 * (j*0)), which is outside the properties"""
+    acc = []
+    for o in spec["ops"]:
+        for a in o["args"]:
+            _terms(a, acc)
+        for x in o["kw"]:
+            _terms(x["v"], acc)
+    for v in spec.get("vars", []):
+        _terms(v["v"], acc)
+    for t in acc:
+        names = term_symbols(t)
+        if not (names & missing):
+            continue
+        try:
+            for j in range(SAMPLES):
+                env = sample_env(names, j)
+                env2 = dict(env)
+                for m in names & missing:
+                    env2[m] = env[m] * 1.9 + 0.7
+                a, b = values.eval_term(t, env)[0], values.eval_term(t, env2)[0]
+                if abs(complex(a) - complex(b)) > 1e-9 * max(1.0, abs(complex(a))):
+                    return False
+        except values.NotComparable:
+            return False
+    return True
+
+
 def cmp_program(spec, prog, sections=("meta", "ops", "modes"), kw_order=False, sym_rtol=1e-9, num_kind=True):
     """spec: the 'prog' record printed by TLC; prog: real BlackbirdProgram. Returns None or a reason."""
     if "meta" in sections:
@@ -228,9 +270,10 @@ def cmp_program(spec, prog, sections=("meta", "ops", "modes"), kw_order=False, s
             if w:
                 return "variable %s: %s" % (v["n"], w)
     if "params" in sections:
-        if set(prog.parameters) != set(spec["params"]):
+        real_p, spec_p = set(prog.parameters), set(spec["params"])
+        if real_p != spec_p and not (real_p < spec_p and params_cancel(spec, spec_p - real_p)):
             return "free parameters %s, specification says %s" % (sorted(prog.parameters), sorted(set(spec["params"])))
-        if bool(prog.is_template()) != bool(spec["params"]):
+        if real_p == spec_p and bool(prog.is_template()) != bool(spec["params"]):
             return "is_template() = %r with parameters %s" % (prog.is_template(), sorted(set(spec["params"])))
     return None
 
